@@ -106,6 +106,10 @@ func NewGraphQLMiddleware(logger logging.Logger, remote *config.Backend) Middlew
 						query[k] = append([]string(nil), vs...)
 					}
 					// the operation's parameters replace client query strings of the same name
+					// (also the ones the operation does not set: no operation name, no variables)
+					for _, k := range []string{"query", "operationName", "variables"} {
+						delete(query, k)
+					}
 					for k, vs := range q {
 						query[k] = vs
 					}
